@@ -278,6 +278,7 @@ class C20(Check):
                       # created ancestor) disappears: "creating missing
                       # directories first" holds for every call
                       'rm_between': rng.choice((None, None, 'leaf', 'top')),
+                      'relative': rng.random() < 0.2,
                       'fault': rng.choice(
                           (None, None, None, ['write', errno.ENOSPC],
                            ['write', errno.EIO], ['close', errno.EIO],
@@ -617,6 +618,18 @@ class C20(Check):
             ex = os.path.join(work, *parts[:case['existing_depth']]) \
                 if parts else work
             os.makedirs(ex, exist_ok=True)
+        old_cwd = None
+        d_arg = d
+        if case.get('relative') and depth:
+            # the directory is named relative to the current directory, and
+            # the default temporary directory is somewhere else
+            old_cwd = os.getcwd()
+            os.chdir(work)
+            d_arg = os.path.join(*parts)
+            os.makedirs(os.path.join(work, 'tmpdefault'), exist_ok=True)
+            old_td2 = tempfile.tempdir
+            tempfile.tempdir = os.path.join(work, 'tmpdefault')
+            self.bump('probes', 'relative_path')
         try:
             target_dir = d or work
             pre = set()
@@ -649,7 +662,7 @@ class C20(Check):
                                    memoryview(data) if ck == 'memoryview'
                                    else data)
                     p = fu.write_to_tempfile(payload, path=as_kind(
-                        d, case.get('path_kind')) if d else d,
+                        d_arg, case.get('path_kind')) if d_arg else d_arg,
                                              suffix=case['suffix'],
                                              prefix=case['prefix'])
                     out = ('ok', p)
@@ -685,6 +698,8 @@ class C20(Check):
                               depth=depth)
                     break
                 p = out[1]
+                if old_cwd is not None and not os.path.isabs(p):
+                    p = os.path.join(work, p)
                 if depth and case['existing_depth'] < depth:
                     self.bump('probes', 'nested_dirs_created')
                 if os.path.dirname(p) != os.path.realpath(target_dir) and \
@@ -721,6 +736,9 @@ class C20(Check):
                         pre.clear()
                         self.bump('probes', 'directory_removed_between_calls')
         finally:
+            if old_cwd is not None:
+                os.chdir(old_cwd)
+                tempfile.tempdir = old_td2
             if depth is None:
                 tempfile.tempdir = old_td
         return [depth, case['existing_depth'], case.get('fault'),
@@ -885,7 +903,7 @@ class C20(Check):
 
     def reducers(self, case):
         for k in ('short', 'fault', 'seek_errno', 'twice', 'real', 'stat_lies',
-                  'pre_files', 'default_args', 'rm_between'):
+                  'pre_files', 'default_args', 'rm_between', 'relative'):
             if case.get(k):
                 c = copy.deepcopy(case)
                 c[k] = [] if k == 'short' else (0 if k == 'pre_files'
